@@ -243,7 +243,230 @@ func genC07Facts(x *Ctx) {
 	})
 }
 
+
+// ---------------------------------------------------------------------------------------------
+// C06 — packetizer histories
+
+type pkOp struct {
+	kind    byte // P S G E
+	payload []byte
+	samples uint32
+	now     int64
+	n       uint32 // S, G
+	id      int    // E
+}
+
+// runPktzHist runs the history on a real packetizer and writes input and observation tokens.
+func runPktzHist(c *Case, codec pktzCodec, mtu int, pt int, ssrc, ts0 uint32, seq0 int, ops []pkOp) {
+	rec := &recPayloader{inner: codec.mk(c.R)}
+	p := rtp.NewPacketizer(uint16(mtu), uint8(pt), ssrc, rec, rtp.NewFixedSequencer(uint16(seq0)), 90000)
+	setPacketizerTimestamp(p, ts0)
+	var now int64
+	if !rtp.VerifSetPacketizerClock(p, clockOf(&now)) {
+		panic("not the package's packetizer")
+	}
+	c.I.Nat(mtu).Nat(pt).U64(uint64(ssrc)).U64(uint64(ts0)).Nat(seq0).Tok(codec.name).Nat(len(ops))
+	c.O.Nat(len(ops))
+	for _, op := range ops {
+		switch op.kind {
+		case 'P':
+			now = op.now
+			rec.want, rec.calls, rec.frags = op.payload, 0, nil
+			pkts := p.Packetize(op.payload, op.samples)
+			c.I.Tok("P").Bytes(op.payload).U64(uint64(op.samples)).I64(op.now).BytesList(rec.frags)
+			c.O.Tok("P")
+			if rec.calls == 0 {
+				c.O.None()
+			} else {
+				c.O.Some().Nat(int(rec.budget)).Bool(rec.same && rec.calls == 1)
+			}
+			obsPkts(&c.O, pkts)
+		case 'S':
+			p.SkipSamples(op.n)
+			c.I.Tok("S").U64(uint64(op.n))
+			c.O.Tok("S")
+		case 'G':
+			pkts := p.GeneratePadding(op.n)
+			c.I.Tok("G").U64(uint64(op.n))
+			c.O.Tok("G")
+			obsPkts(&c.O, pkts)
+		case 'E':
+			p.EnableAbsSendTime(op.id)
+			c.I.Tok("E").Nat(op.id)
+			c.O.Tok("E")
+		}
+	}
+}
+
+func pickSamples(r *Rand) uint32 {
+	switch r.Intn(8) {
+	case 0:
+		return 0
+	case 1:
+		return 0xFFFFFFFF
+	case 2:
+		return uint32(r.Pick(1, 160, 960, 3000, 90000, 0x7FFFFFFF, 0x80000000))
+	default:
+		return uint32(r.U64() >> uint(r.Pick(32, 40, 48, 56)))
+	}
+}
+
+func genC06Hist(x *Ctx) {
+	// --- tiny histories first (short case lines; they also serve as the samples in the evidence)
+	for i := 0; i < 64; i++ {
+		i := i
+		x.Case(func(c *Case) {
+			var ops []pkOp
+			if i%2 == 1 {
+				ops = append(ops, pkOp{kind: 'E', id: 1 + i%14})
+			}
+			ops = append(ops, pkOp{kind: 'P', payload: c.R.Bytes(1 + i%7), samples: uint32(i), now: int64(i) * 1000000007})
+			if i%4 >= 2 {
+				ops = append(ops, pkOp{kind: 'S', n: 5})
+			}
+			c.Tag("tiny")
+			runPktzHist(c, pktzCodecs[i%len(pktzCodecs)], 100, 96, 0x1234ABCD, 45678, 1234, ops)
+		})
+	}
+	// --- boundary grid: one Packetize (optionally after EnableAbsSendTime, followed by padding) with
+	// a payload that fills the last fragment exactly / ±1, for the chunking payloaders
+	for _, mtu := range []int{64, 65, 100, 1200, 1500} {
+		for _, id := range []int{0, 1, 7, 14} {
+			for _, k := range []int{1, 2, 3} {
+				for d := -1; d <= 1; d++ {
+					for _, hdr := range []int{12, 20} {
+						for ci := 0; ci < 2; ci++ {
+							mtu, id, k, d, hdr, ci := mtu, id, k, d, hdr, ci
+							x.Case(func(c *Case) {
+								n := k*(mtu-hdr) + d
+								var ops []pkOp
+								if id != 0 {
+									ops = append(ops, pkOp{kind: 'E', id: id})
+								}
+								ops = append(ops, pkOp{kind: 'P', payload: c.R.Bytes(n), samples: pickSamples(c.R), now: clockValue(c.R)})
+								ops = append(ops, pkOp{kind: 'G', n: uint32(c.R.Intn(3))})
+								ops = append(ops, pkOp{kind: 'P', payload: c.R.Bytes(n), samples: 960, now: clockValue(c.R)})
+								c.Tag("grid")
+								if id != 0 {
+									c.Tag("abs-on")
+								}
+								runPktzHist(c, pktzCodecs[ci], mtu, 96+c.R.Intn(32), uint32(c.R.U64()), uint32(c.R.U64()),
+									c.R.Pick(0, 65530, 65535), ops)
+							})
+						}
+					}
+				}
+			}
+		}
+	}
+	// --- padding alone and around the sequence wrap
+	for _, seq0 := range []int{0, 1, 65530, 65535} {
+		for _, n := range []int{0, 1, 2, 5, 7, 40} {
+			seq0, n := seq0, n
+			x.Case(func(c *Case) {
+				ops := []pkOp{{kind: 'G', n: uint32(n)}, {kind: 'P', payload: c.R.Bytes(30), samples: 1, now: 0}, {kind: 'G', n: uint32(n)}}
+				c.Tag("padding")
+				if n == 0 {
+					c.Tag("padding:0")
+				}
+				runPktzHist(c, pktzCodecs[c.R.Intn(len(pktzCodecs))], 1200, 111, 0xFFFFFFFF, 0xFFFFFFF0, seq0, ops)
+			})
+		}
+	}
+	// --- random histories
+	for i, n := 0, x.N(2500, 150000); i < n; i++ {
+		x.Case(func(c *Case) {
+			r := c.R
+			codec := pktzCodecs[r.Intn(len(pktzCodecs))]
+			mtu := r.Pick(64, 65, 100, 1200, 1500, r.Range(64, 200), r.Range(64, 2000), r.Range(64, 65535))
+			small := false
+			if codec.simple && r.Chance(1, 25) {
+				mtu = r.Pick(0, 1, 11, 12, 13, 19, 20, 21, 27, 28, 63) // outside the property's domain: model must still agree
+				small = true
+			}
+			pt := r.Intn(128)
+			if r.Chance(1, 40) {
+				pt = 128 + r.Intn(128) // not a 7-bit payload type: outside the domain
+			}
+			ssrc := uint32(r.U64())
+			if r.Chance(1, 10) {
+				ssrc = uint32(r.Pick(0, 1, 0xFFFFFFFF))
+			}
+			ts0 := uint32(r.U64())
+			if r.Chance(1, 3) {
+				ts0 = uint32(0xFFFFFFFF - r.Intn(5000))
+			}
+			seq0 := r.Pick(0, 65530, 65535, r.Intn(65536))
+			absOn := r.Bool()
+			nops := r.Range(1, 12)
+			var ops []pkOp
+			curID := 0
+			if absOn {
+				curID = r.Range(1, 14)
+				ops = append(ops, pkOp{kind: 'E', id: curID})
+			}
+			for len(ops) < nops {
+				switch k := r.Intn(20); {
+				case k < 12:
+					hdr := 12
+					if curID != 0 {
+						hdr = 20
+					}
+					budget := mtu - hdr
+					if budget < 1 {
+						budget = 50
+					}
+					var payload []byte
+					switch r.Intn(8) {
+					case 0:
+						if r.Bool() {
+							payload = []byte{}
+						}
+					case 1, 2:
+						// fragment-filling size for the chunking payloaders, near it for the others
+						ln := r.Range(1, 4)*budget + r.Pick(0, 0, 0, -1, 1)
+						if ln > 20000 {
+							ln = budget + r.Pick(0, 0, -1, 1)
+						}
+						if ln > 70000 {
+							ln = 70000
+						}
+						payload = codec.gen(r, ln)
+						if codec.simple && len(payload) > ln && ln > 0 {
+							payload = payload[:ln]
+						}
+					default:
+						payload = codec.gen(r, r.Size(min(4*budget+10, 12000), budget, 2*budget, 1))
+					}
+					ops = append(ops, pkOp{kind: 'P', payload: payload, samples: pickSamples(r), now: clockValue(r)})
+				case k < 14:
+					ops = append(ops, pkOp{kind: 'S', n: pickSamples(r)})
+				case k < 17:
+					ops = append(ops, pkOp{kind: 'G', n: uint32(r.Pick(0, 1, 1, 2, 3, 5, r.Intn(12)))})
+				default:
+					if absOn || r.Chance(1, 3) {
+						curID = r.Pick(0, r.Range(1, 14), r.Range(1, 14))
+						ops = append(ops, pkOp{kind: 'E', id: curID})
+					}
+				}
+			}
+			c.Tag("codec:" + codec.name)
+			if small {
+				c.Tag("mtu<64")
+			}
+			if absOn {
+				c.Tag("abs-on")
+			}
+			if seq0 >= 65530 {
+				c.Tag("seq-wraps")
+			}
+			runPktzHist(c, codec, mtu, pt, ssrc, ts0, seq0, ops)
+		})
+	}
+}
+
 func init() {
+	register("c06.hist", "C06", genC06Hist)
 	register("c07.run", "C07", genC07Run)
 	register("c07.hist", "C07", genC07Hist)
 	register("c07.facts", "C07", genC07Facts)
